@@ -371,6 +371,30 @@ func init() {
 	})
 }
 
+func init() {
+	c13 := registry["C13"]
+	register(&Property{
+		ID:            "C17",
+		OnlyMsgPrefix: "C17:",
+		Patterns:    append([]string{"github.com/ory/keto/internal/driver"}, c13.Patterns...),
+		HarnessDirs: []string{"internal/check", "internal/relationtuple", "internal/expand", "internal/driver"},
+		Assumptions: []string{"storage = recording stubs of relationtuple.Manager and MappingManager: any call of a writing method (WriteRelationTuples, DeleteRelationTuples, DeleteAllRelationTuples, TransactRelationTuples, MapStringsToUUIDs) or of the writing Mapper() from a read handler is the violation", "requests: arbitrary inhabitants of the request types as in C13, names known and never seen before (opaque strings)"},
+		Outside:     []string{"the SQL statements below the Manager/MappingManager interfaces (a read method of the persister that writes)", "route registration (which router a handler is mounted on)", "the syntax API (touches no storage interface at all)"},
+		Runs: func(tier string) []Run {
+			var out []Run
+			for _, r := range c13.Runs(tier) {
+				if r.Name == "relationtuple-write" {
+					continue
+				}
+				r.Name = "read-" + r.Name
+				out = append(out, r)
+			}
+			out = append(out, Run{Name: "registry-mappers", Pkg: "github.com/ory/keto/internal/driver", Harness: "HarnessC17RegistryMappers", Params: map[string]int64{}, Reach: []string{"c17.registry"}})
+			return out
+		},
+	})
+}
+
 func itoa(n int64) string {
 	s := ""
 	if n == 0 {
